@@ -424,6 +424,7 @@ let handle (fields : string list) : string * string =
           (* the user-token key is only looked at (and logged) when user tokens are enabled *)
           "started:" ^ ks k.k_paa_enc ^ ks k.k_paa_sign ^ ks k.k_user_enc ^ ks k.k_session ^ ks k.k_session_enc) in
     (m, if m = impl then "ok"
+        else if impl = "started-without-tls" then "fail:serves-without-tls-although-tls-is-not-disabled"
         else if String.length impl >= 7 && String.sub impl 0 7 = "started" && m = "fatal" then "fail:unsafe-configuration-started"
         else if impl = "fatal" then "fail:safe-configuration-refused"
         else "fail:key-substitution")
